@@ -42,9 +42,9 @@ from vgi_rpc import _codec as cod
 PROPERTY = "C18"
 ENCODED = [cod.decompress, cod._decompress_body_gzip, cod._decompress_body_zstd, cod._zstd_content_size, cod.compress, cod._compress_body_gzip, cod._compress_body_zstd]
 
-_N = pick(10, 14)  # plaintext length bound
+_N = pick(10, 20)  # plaintext length bound
 _CHUNK = 3  # patched _DECOMPRESS_CHUNK_BYTES
-_P = pick(2, 4)  # zlib internal pending-output bound
+_P = pick(2, 5)  # zlib internal pending-output bound
 _REAL_CHUNK = cod._DECOMPRESS_CHUNK_BYTES
 
 BOUNDS = (
